@@ -46,3 +46,11 @@ def setup() -> None:
     got = os.path.abspath(os.path.dirname(os.path.dirname(puresnmp.__file__)))
     if got != src:
         raise RuntimeError("puresnmp imported from %s, expected %s" % (got, src))
+
+
+def set_debug_logging(on: bool) -> None:
+    """Emulate an application that configured DEBUG (or left WARNING) for the puresnmp loggers; records are only counted."""
+    setup()
+    level = logging.DEBUG if on else logging.WARNING
+    for name in ("puresnmp", "puresnmp_plugins"):
+        logging.getLogger(name).setLevel(level)
